@@ -116,6 +116,21 @@ func tagValue(tag int) any {
 	return tag
 }
 
+// tagValueP is tagValue with pointer-typed values mixed in (every seventh a live *int, every
+// eleventh a live pointer to a nil pointer): comparable by identity, but code that inspects
+// element types by reflection meets a pointer.
+func tagValueP(tag int) any {
+	switch {
+	case tag > 0 && tag%7 == 3:
+		x := tag
+		return &x
+	case tag > 0 && tag%11 == 5:
+		var p *int
+		return &p
+	}
+	return tagValue(tag)
+}
+
 func itoa(i int) string {
 	if i == 0 {
 		return "0"
